@@ -5,7 +5,9 @@ import os, re
 import vlib
 
 
-def prove(ctx, units, modules, required, tie_module, tie_ns, extra_allow=None):
+def prove(ctx, units, modules, required, tie_module, tie_ns, extra_allow=None, dependents=()):
+    """dependents: [(module, namespace)] — theorem files built on the tie (e.g. the property restated about the generated code);
+    every theorem in them is required and inherits the tie's bv_decide certificates, nothing else"""
     import regen
     for u, e in regen.regen(units):
         ctx.broken.append(f'tie T: tools/c2lean2.py cannot translate unit {u}: {e}')
@@ -13,11 +15,17 @@ def prove(ctx, units, modules, required, tie_module, tie_ns, extra_allow=None):
     def allow(t, a):
         if extra_allow and extra_allow(t, a):
             return True
-        return (t.startswith(tie_ns + '.') and a.startswith(tie_ns + '.') and '._native.bv_decide.ax_' in a
+        return ((t.startswith(tie_ns + '.') or any(t.startswith(ns + '.') for _, ns in dependents))
+                and a.startswith(tie_ns + '.') and '._native.bv_decide.ax_' in a
                 and '_generated' in a.split('._native.bv_decide.ax_')[0].split('.')[-1])
     tie_file = tie_module.replace('.', '/') + '.lean'
     ties = [t for t in ctx.prop_theorems(tie_file) if t.endswith('_tie') or t.endswith('_generated')]
-    ok = ctx.prove(list(modules) + [tie_module], list(required) + ties, allow_extra_axioms=allow)
+    deps = []
+    for m, ns in dependents:
+        deps += ctx.prop_theorems(m.replace('.', '/') + '.lean')
+    ok = ctx.prove(list(modules) + [tie_module] + [m for m, _ in dependents], list(required) + ties + deps, allow_extra_axioms=allow)
+    if dependents:
+        ctx.cov['tie_T_dependent_theorems'] = deps
     ctx.cov['tie_T_generated_units'] = {u: regen.UNITS2[u][1] for u in units if u in regen.UNITS2}
     return ok
 
